@@ -31,8 +31,6 @@ def known_class(j, cat, text):
         return "KF-WAV-GSM-PAD"
     if f.major == 0x0F and cat in ("partition", "frames", "eof", "stale"):
         return "KF-XI-HEADER"
-    if f.major == 0x0B and f.codec in (0x12, 0x13, 0x20) and cat in ("stale", "partition"):
-        return "KF-W64-STALE-FRAMES"
     if f.major == 0x08 and cat == "snapshot":
         return "KF-VOC-UPDATE"
     if f.major == 0x08 and f.codec in (0x10, 0x11) and j.ch == 1 and cat in ("frames", "eof"):
